@@ -372,10 +372,13 @@ class WsgiApplication(HttpBase):
                                   _gen_http_headers(ctx.transport.resp_headers))
             return _ResponseIterator([HTTP_404.encode('ascii')], ctx.close)
 
-        if self._wsdl is None:
-            self._wsdl = self.doc.wsdl11.get_interface_document()
-
+        # The shared attribute is only ever written with the lock held: a
+        # ``None`` read from the builder before another thread finished
+        # building must not overwrite the document that thread then stored.
         ctx.transport.wsdl = self._wsdl
+
+        if ctx.transport.wsdl is None:
+            ctx.transport.wsdl = self.doc.wsdl11.get_interface_document()
 
         if ctx.transport.wsdl is None:
             try:
